@@ -19,13 +19,12 @@ import (
 	"github.com/algorand/go-algorand/ledger/store/trackerdb"
 )
 
-// c47Div says which known divergence classes reproduce on the tree under test (probed once per process).
+// c47Div says which divergence classes listed in KNOWN_FINDINGS.txt reproduce on the tree under test (probed once per
+// process). Only those are left out of the pebble comparison; anything else that differs is a violation.
 type c47Div struct {
-	prefixNamespace       bool // kv-prefix-scan-namespace
-	lookupOnlineXff       bool // kv-lookuponline-round-xff
-	onlineDeleteInclusive bool // kv-onlinedelete-inclusive
-	onlineTopOrder        bool // kv-onlinetop-order
-	onlineAllRound        bool // kv-onlineall-round
+	prefixNamespace bool // kv-prefix-scan-namespace
+	onlineTopOrder  bool // kv-onlinetop-order
+	onlineAllRound  bool // kv-onlineall-round
 }
 
 type c47Readers struct {
@@ -360,11 +359,10 @@ func (w *c47World) qLookupOnline(m *c47Model, rd [2]*c47Readers, a basics.Addres
 	e, ok := m.latestOnline(a, rnd)
 	w.hit(ok)
 	exp := fmt.Sprintf("ok addr=%s rnd=%d ref=%v upd=%d data=%s", c47A(a), m.round, ok, e.upd, c47EncOn(e.data))
-	skip := ""
-	if w.div.lookupOnlineXff && uint64(rnd)&0xff == 0xff && ok {
-		skip = "kv-lookuponline-round-xff: LookupOnline at a round whose low byte is 0xff with a stored entry"
+	if uint64(rnd)&0xff == 0xff && ok {
+		w.vk.Label("LookupOnline at a round ending in 0xff with a stored entry")
 	}
-	w.cmp3(fmt.Sprintf("LookupOnline(%s,%d)", c47A(a), rnd), exp, rd, skip, func(b int, r *c47Readers) string {
+	w.cmp3(fmt.Sprintf("LookupOnline(%s,%d)", c47A(a), rnd), exp, rd, "", func(b int, r *c47Readers) string {
 		d, err := r.or.LookupOnline(a, rnd)
 		if err != nil {
 			return c47ErrStr(err) + ": " + err.Error()
@@ -956,13 +954,15 @@ func c47LimClass(v uint64, n int) string {
 
 func (w *c47World) genRound(m *c47Model, lbl string) basics.Round {
 	rt := w.rt
-	hi := uint64(m.round) + 2
-	r := rapid.Uint64Range(0, hi).Draw(rt, lbl)
-	if rapid.IntRange(0, 3).Draw(rt, lbl+"ff") == 0 && hi > 0xff {
-		r = (r | 0xff)
-		if r > hi {
-			r -= 0x100
-		}
+	// target rounds may lie ahead of the db round (the ledger asks the store for any round its deltas do not cover)
+	r := rapid.Uint64Range(0, uint64(m.round)+2).Draw(rt, lbl)
+	switch rapid.IntRange(0, 5).Draw(rt, lbl+"ff") {
+	case 0:
+		r |= 0xff // low byte 0xff (regression of kv-lookuponline-round-xff)
+	case 1:
+		r |= 0xffff
+	case 2:
+		r += uint64(rapid.IntRange(0, 300).Draw(rt, lbl+"ahead"))
 	}
 	return basics.Round(r)
 }
@@ -1051,6 +1051,7 @@ func (w *c47World) sweep(m *c47Model, rd [2]*c47Readers) {
 			w.qOnlineHistory(m, rd, a)
 		}
 		w.qLookupOnline(m, rd, a, m.round)
+		w.qLookupOnline(m, rd, a, m.round|0xff)
 	}
 	for _, k := range m.sortedKeys() {
 		w.qKeyValue(m, rd, k)
